@@ -616,7 +616,7 @@ class TriaMesh:
         tids = np.empty(vids.shape, dtype=np.int32)
         tids[:, 0] = adjtriu1.data - 1
         tids[:, 1] = adjtriu2.data - 1
-        if not with_boundary or bdredges.size == 0:
+        if not with_boundary or np.size(bdredges) == 0:
             return vids, tids
         bdrv = np.array(np.nonzero(bdredges)).T
         nzids = bdrtrias > -1
